@@ -157,3 +157,60 @@ package server
 //@   safe
 //@   pure
 //@   ensures result != nil && spec_fresh(result)
+
+// ---- C18 / C04: the +tls suffix (or https / wss) decides, at start-up, whether the endpoint is a TLS endpoint
+// ---- C18: an allow-list naming an unknown channel is a configuration error on every endpoint kind
+//@ ghost G_snap_filterfailed() bool
+//@ ghost G_snap_tls_suffix() bool
+//@ ghost G_snap_scheme() string
+
+//@ func (st *SocketServer) String
+//@   property C18
+//@   pure
+//@ func (st *IoServer) String
+//@   property C18
+//@   pure
+//@ func (st *PacketServer) String
+//@   property C18
+//@   pure
+//@ func (st *DnsServer) String
+//@   property C18
+//@   pure
+
+//@ func (st *SocketServer) Startup
+//@   property C18, C04
+//@   requires channelsWF(channels)
+//@   callsite Filter#1 (ups Channels, e error) assume G_snap_filterfailed() == (e != nil) "ghost snapshot: the allow-list filter reported an error"
+//@   ensures G_snap_filterfailed() ==> err != nil                                                                                   :allow_list_error_is_reported
+//@   callsite tls.Listen#1 (l net.Listener, e error) assert strings.HasSuffix(old(st.Address.Scheme), "+tls") && st.secure          :tls_listener_exactly_for_tls_schemes
+//@   callsite net.Listen#1 (l net.Listener, e error) assert !strings.HasSuffix(old(st.Address.Scheme), "+tls") && !st.secure        :plain_listener_only_for_plain_schemes
+
+//@ func (st *IoServer) Startup
+//@   property C18, C04
+//@   requires channelsWF(channels)
+//@   callsite Filter#1 (ups Channels, e error) assume G_snap_filterfailed() == (e != nil) "ghost snapshot: the allow-list filter reported an error"
+//@   ensures G_snap_filterfailed() ==> err != nil                                                                                   :allow_list_error_is_reported
+//@   callsite GetTlsConfig#1 (c *tls.Config, e error) assert addr.HasTls.MatchString(old(st.Address.Scheme))                       :tls_only_for_tls_schemes
+
+//@ func (st *PacketServer) StartupPacket
+//@   property C18
+//@   requires channelsWF(channels)
+//@   callsite Filter#1 (ups Channels, e error) assume G_snap_filterfailed() == (e != nil) "ghost snapshot: the allow-list filter reported an error"
+//@   ensures G_snap_filterfailed() ==> err != nil                                                                                   :allow_list_error_is_reported
+
+//@ func (st *DnsServer) Startup
+//@   property C18, C04
+//@   requires channelsWF(channels)
+//@   callsite Filter#1 (ups Channels, e error) assume G_snap_filterfailed() == (e != nil) "ghost snapshot: the allow-list filter reported an error"
+//@   ensures G_snap_filterfailed() ==> err != nil                                                                                   :allow_list_error_is_reported
+//@   callsite NewNetConnectionServerCommunicator#1 (server *dns2.Server) require (server.TLSConfig != nil) == strings.HasSuffix(old(st.Address.Scheme), "+tls")   :tls_listener_exactly_for_tls_schemes
+
+//@ func (ws *HttpServer) Startup
+//@   property C18, C04
+//@   callsite MatchString#1 (m bool) assume G_snap_tls_suffix() == m && spec_sameslice(G_snap_scheme(), ws.Address.Scheme) "ghost snapshot of the scheme, and of its +tls test, at the point where the scheme is classified"
+//@   callsite net.Listen#1 () require ws.secure == (G_snap_tls_suffix() || G_snap_scheme() == "https" || G_snap_scheme() == "wss")    :secure_flag_follows_scheme
+//@ func (ws *HttpServer) Startup$1
+//@   property C18, C04
+//@   freevars ws *HttpServer
+//@   callsite ServeTLS#1 () require ws.secure                                                                                 :tls_served_only_when_secure
+//@   callsite Serve#1 () require !ws.secure                                                                                    :plain_served_only_when_not_secure
